@@ -84,14 +84,20 @@ Example strlist_sample_written :
   end.
 Proof. vm_compute. reflexivity. Qed.
 
-(* outside the stated guard: a map holding an int32 under the reserved marker key reads back
-   as a list - why container_roundtrip demands key <> ListSizeKeyName *)
-Example marker_key_guard_needed :
-  match entry_node true (VMap [(ListSizeKeyName, VS (SInt32 1))]) with
-  | Ok n => get_node n = VList [VS SNil]
-  | _ => False
-  end.
+(* the reserved list-size marker key is refused as a map key ... *)
+Example reserved_key_refused : entry_node true (VMap [(ListSizeKeyName, VS (SInt32 1))]) = Err.
 Proof. vm_compute. reflexivity. Qed.
+
+(* ... because the code of the pinned tree stored such a map and read it back as a list:
+   container_read_back is false of the legacy model *)
+Example container_read_back_legacy_refuted :
+  exists v n, Representable v /\ entry_node_legacy true v = Ok n /\ get_node n <> v.
+Proof.
+  exists (VMap [(ListSizeKeyName, VS (SInt32 1))]). eexists. split; [|split].
+  - constructor; [repeat constructor | repeat constructor].
+  - vm_compute. reflexivity.
+  - vm_compute. discriminate.
+Qed.
 
 (* the same map written in two iteration orders *)
 Example map_order_sample :
